@@ -205,14 +205,8 @@ def check(pc, goal, timeout_ms=10000, portfolio=True, want_model=False):
                 return "unsat", backend, time.time() - t0, None
             if verdict == "sat":
                 return "sat", backend, time.time() - t0, None
-    # z3's verdict on the quantified queries varies from run to run (same input: 1 s or `unknown`): try again with other
-    # random seeds before giving up - an `unsat` found this way is accepted only when a second run confirms it
-    for seed in (1, 2):
-        for hyps, tag in ((ground, "(qf-subset)"), (list(pc), "")):
-            if tag and len(ground) == len(pc):
-                continue
-            rr, _m = _solve(hyps + [neg], budget, seed=seed)
-            if rr == "unsat" and _confirmed(hyps + [neg], budget, force=True):
-                return "unsat", "z3py-%s%s(seed %d)" % (z3.get_version_string(), tag, seed), time.time() - t0, None
+    # (retries with other random seeds were used while all attempts shared one z3 context and verdicts varied from run to
+    #  run; with a fresh context per attempt they are not needed, and on a changed tree they cost half a minute per failing
+    #  obligation)
     return "unknown", None, time.time() - t0, None
 
